@@ -166,6 +166,7 @@ type State struct {
 	spawned  []spawnRec
 	step     *stepState // thread-modular mode
 	inAtomic bool
+	lastRecv string      // "ok" term of the last channel receive ("" = none yet)
 	axioms   []axiomTerm // assumed lazily: added to an obligation only when relevant to its goal
 	quiet    bool        // spec translation: assumptions produced by loads are dropped
 }
@@ -182,7 +183,7 @@ type loopEntry struct {
 
 func (st *State) clone() *State {
 	n := &State{g: st.g, heaps: make(map[string]string, len(st.heaps)), old: st.old, written: make(map[string]bool, len(st.written)),
-		loopSt: map[int]*loopEntry{}, dry: st.dry, vc: st.vc, axioms: st.axioms, spawned: append([]spawnRec(nil), st.spawned...), step: st.step.clone(), inAtomic: st.inAtomic}
+		loopSt: map[int]*loopEntry{}, dry: st.dry, vc: st.vc, axioms: st.axioms, spawned: append([]spawnRec(nil), st.spawned...), step: st.step.clone(), inAtomic: st.inAtomic, lastRecv: st.lastRecv}
 	for k, v := range st.heaps {
 		n.heaps[k] = v
 	}
